@@ -225,13 +225,17 @@ Record src_line : Type := SrcLine {
 Definition comment_si : string := "c ".
 Definition dollar_si (si : string) : string := si ++ "$ ".
 
+(* is_comment(written) and written[:BLANK_SPACE_CONTINUE].strip(): the written line is a comment line whose C is
+   within the first [cont] columns *)
+Definition comment_branch (cont : nat) (written : string) : bool :=
+  andb (is_comment written) (negb (all_pyspace (take cont written))).
+
 (* the body of _wrap_line on the tab-expanded line and the chunks of its parts; [cont] = BLANK_SPACE_CONTINUE *)
 Definition wrap_line_chunks (W cont : nat) (ii si : string) (l : src_line) : wres :=
   let line := l_text l in
   if Nat.leb (slen ii + slen line) W then of_opt (wrap_chunks W ii si (l_chunks l))
   else
-    let written := ii ++ line in
-    if andb (is_comment written) (negb (all_pyspace (take cont written)))
+    if comment_branch cont (ii ++ line)
     then of_opt (wrap_chunks W ii comment_si (l_chunks l))
     else if negb (has_char dollar line) then of_opt (wrap_chunks W ii si (l_chunks l))
     else
